@@ -361,6 +361,11 @@ func createUpstreamRequest(rw http.ResponseWriter, r *http.Request) (*http.Reque
 
 	outreq := r.WithContext(ctx) // includes shallow copies of maps, but okay
 
+	// "Connection: close" (or HTTP/1.0) concerns the client's connection to
+	// us; it says nothing about the connection to the backend, which the
+	// transport would otherwise close after this one request as well
+	outreq.Close = false
+
 	// We should set body to nil explicitly if request body is empty.
 	// For server requests the Request Body is always non-nil.
 	if r.ContentLength == 0 {
